@@ -538,6 +538,12 @@ func (conn *obfs4Conn) Write(b []byte) (int, error) {
 				// window and will sample the length distribution every time a
 				// write is scheduled.
 				targetLen := conn.lenDist.Sample()
+				if targetLen == 0 {
+					// The length distribution can contain 0, which is
+					// not a usable write size (there is pending data to
+					// send), so just resample.
+					continue
+				}
 				if frameBuf.Len() < targetLen {
 					// There's not enough data buffered for the target write,
 					// so padding must be inserted.
